@@ -130,7 +130,7 @@ MCHostile == \E c \in Pick(Open), cls \in Pick(HostileClosing \cup HostileSurviv
     /\ (Gen = "sim" => (closed <=> cls \in HostileClosing))      \* the generator does not know; the trace carries what happened
     /\ Hostile(c, cls, closed) /\ Emit([n |-> "hostile", c |-> c, cls |-> cls])
 
-MCStranger == \E cls \in Pick({"nothing", "ping", "disconnect", "cut-connect", "garbage", "sub-first", "pub-first"}) :
+MCStranger == \E cls \in Pick({"nothing", "ping", "disconnect", "cut-connect", "garbage", "sub-first", "pub-first", "will-deep-24", "will-deep-40", "will-long"}) :
     /\ Fam = "hostile"
     /\ Stranger /\ Emit([n |-> "stranger", cls |-> cls])
 
